@@ -233,6 +233,8 @@ class RefParser:
         spec = self.declaration_specifiers()
         if self.accept("SEMI"):
             self.check_declares_something(spec)
+            if spec["storage_l"]:
+                raise RefUnsupported("storage class in a declaration without declarators")
             return [self.entity(spec, None, None, None)]
         first = True
         out = []
@@ -300,6 +302,12 @@ class RefParser:
     def entity(self, spec, d, init, bitsize, kind=None):
         """neutral record of one declared entity"""
         chain = list(d["chain"]) if d else []
+        for outer, inner in zip(chain, chain[1:]):
+            # 6.7.5.2p1 / 6.7.5.3p1: no arrays of functions, no functions returning functions or arrays.
+            # A conforming compiler must diagnose these; which parameter list belongs to the definition is
+            # meaningless for them, so they carry no claim.
+            if (outer[0] == "func" and inner[0] in ("func", "array")) or (outer[0] == "array" and inner[0] == "func"):
+                raise RefUnsupported("function returning function/array or array of functions (constraint violation)")
         typ = ("base", list(spec["quals"]), spec["base"])
         for lvl in reversed(chain):
             if lvl[0] == "ptr":
